@@ -11,15 +11,33 @@ use crate::world::Opts;
 pub type Exec = fn(&Scenario, &mut Acc) -> Result<Vec<crate::report::Violation>, String>;
 
 pub fn still_fails(exec: Exec, sc: &Scenario, sig: &str, attempts: u32) -> bool {
-    for _ in 0..attempts.max(1) {
+    if attempts <= 1 {
         let mut acc = Acc::default();
-        if let Ok(vs) = exec(sc, &mut acc) {
-            if vs.iter().any(|v| v.signature() == sig) {
-                return true;
-            }
-        }
+        return matches!(exec(sc, &mut acc), Ok(vs) if vs.iter().any(|v| v.signature() == sig));
     }
-    false
+    // Several attempts, executed at the same time on several threads: nondeterminism of the
+    // program under test that comes from a randomly seeded hash map shows up in some
+    // executions only, and nondeterminism that comes from contention between threads of one
+    // process (a try_lock on a process-wide cache, say) shows up only under contention.
+    let hit = std::sync::atomic::AtomicBool::new(false);
+    std::thread::scope(|s| {
+        for _ in 0..16 {
+            s.spawn(|| {
+                for _ in 0..6 {
+                    if hit.load(std::sync::atomic::Ordering::SeqCst) {
+                        return;
+                    }
+                    let mut acc = Acc::default();
+                    if let Ok(vs) = exec(sc, &mut acc) {
+                        if vs.iter().any(|v| v.signature() == sig) {
+                            hit.store(true, std::sync::atomic::Ordering::SeqCst);
+                        }
+                    }
+                }
+            });
+        }
+    });
+    hit.load(std::sync::atomic::Ordering::SeqCst)
 }
 
 /// Candidate simplifications, most aggressive first.
